@@ -80,6 +80,7 @@ def run(ctx, repo):
     ctx.rule('R6', 'ordering constants: track < hurdles < jumps < throws < relays < other; FIELD_SORT_ORDER lists '
                    'HJ PV LJ TJ SP DT HT JT in that order; text key = one digit + zero-padded >=5 digits; sorter keys only')
     ctx.rule('R7', 'relay distance = int(number of legs) * leg distance')
+    ctx.rule('R11', 'every accepted code reaches a return of its own family category (input languages per return path from the interpreter)')
     ctx.rule('R10', 'the order component of a sort key is never the bare result of a function that can return None')
     ctx.rule('R9', 'case folding of a relay leg does not move it to another unit arm of get_distance (m metres / M miles)')
     ctx.rule('R8', 'the distance component of a sort key is computed from text that still carries the unit letter (K / M) the pattern admits')
@@ -104,6 +105,65 @@ def run(ctx, repo):
         if nf == 0:
             ctx.ok('R1-R5', '%s::%s total on L(PAT_EVENT_CODE)' % (rel, qual[0]),
                    {'return_paths': len(it.ret), 'sinks': sinks})
+        # R11 every accepted code is keyed in the category of its family: the input language that reaches each return (from the
+        # interpreter) must not contain a code whose first family, in the order throws / hurdles / jumps / relays / track, has another category
+        if fname == 'discipline_sort_key':
+            fn_ = mod.functions[qual[0]]
+            arms_ = arm_returns(fn_)
+            cat_of = {}
+            for pat, r, st in arms_:
+                if pat and isinstance(r.value, ast.Tuple) and r.value.elts and isinstance(r.value.elts[0], ast.Constant):
+                    cat_of.setdefault(pat, r.value.elts[0].value)
+            order_ = [p_ for p_ in ('PAT_THROWS', 'PAT_HURDLES', 'PAT_JUMPS', 'PAT_RELAYS', 'PAT_TRACK') if p_ in cat_of]
+            expected = {}
+            seen_l = None
+            for p_ in order_:
+                L = rx.inter(EC, P.dfa(p_))
+                own = L if seen_l is None else rx.diff(L, seen_l)
+                expected[p_] = own
+                seen_l = L if seen_l is None else rx.union(seen_l, L)
+            # the subject of the searches: the parameter itself, or a case-folded copy of it (then membership is decided on the image)
+            param_ = fn_.args.args[0].arg
+            subj = set()
+            for n in ast.walk(fn_):
+                if isinstance(n, ast.Call) and isinstance(n.func, ast.Attribute) and n.func.attr in ('search', 'match') and n.args \
+                        and isinstance(n.func.value, ast.Name) and n.func.value.id in cat_of:
+                    subj.add(ast.unparse(n.args[0]))
+            tr = 'id'
+            if subj == {param_}:
+                tr = 'id'
+            elif len(subj) == 1:
+                nm = list(subj)[0]
+                defs_ = [a.value for a in ast.walk(fn_) if isinstance(a, ast.Assign) and any(isinstance(t, ast.Name) and t.id == nm for t in a.targets)]
+                if len(defs_) == 1 and isinstance(defs_[0], ast.Call) and isinstance(defs_[0].func, ast.Attribute) and defs_[0].func.attr in ('upper', 'lower') \
+                        and ast.unparse(defs_[0].func.value) == param_:
+                    tr = defs_[0].func.attr
+                else:
+                    raise AnalysisError('discipline_sort_key: the patterns are searched in %s, whose relation to the code is not modelled' % nm)
+            else:
+                raise AnalysisError('discipline_sort_key: the patterns are searched in several subjects %s' % sorted(subj))
+
+            def pre(L):
+                if tr == 'id':
+                    return L
+                mp_ = P.UM_total() if tr == 'upper' else {b: (t if t is not None else b) for b, t in P.LM.items()}
+                return ro.relabel_inverse(L, mp_)
+            seen_r = None
+            n_r = 0
+            for p_ in order_:
+                R_ = rx.inter(EC, pre(P.dfa(p_)))
+                reach = R_ if seen_r is None else rx.diff(R_, seen_r)
+                seen_r = R_ if seen_r is None else rx.union(seen_r, R_)
+                n_r += 1
+                w = P.wit(rx.diff(expected[p_], reach))
+                if w is not None:
+                    ctx.finding('R11', '%s::discipline_sort_key::%s codes that do not reach their arm' % (UTILS, p_), UTILS, fn_.lineno,
+                                'the accepted code %r belongs to %s (category %s) but %s: it is keyed in another category, away from its family and '
+                                'without its distance' % (w, p_, cat_of[p_], 'its %s-cased copy, which is what the patterns are applied to, does not '
+                                                          'match %s' % (tr, p_) if tr != 'id' else 'an earlier arm takes it'), w)
+            ctx.count('families whose codes were followed to their arm', n_r)
+            if not any(f.rule == 'R11' for f in ctx.findings):
+                ctx.ok('R11', 'every accepted code of the %d families reaches the arm of its own category (subject: %s)' % (n_r, tr))
         # every return of discipline_sort_key is a 3-tuple
         if fname == 'discipline_sort_key':
             check_sort_key_shape(ctx, P, utils, mod.functions[qual[0]], consts)
